@@ -33,7 +33,7 @@ vars == <<T, link, phase, todo>>
 Ev == { T[k] : k \in DOMAIN T }
 
 Init == /\ T \in Traces
-        /\ (WF => WellFormed({ T[k] : k \in DOMAIN T }))
+        /\ (WF => WellFormed({ T[k] : k \in DOMAIN T })) = TRUE      \* "= TRUE": a value, not a formula TLC splits on its disjunctions
         /\ link = [k \in DOMAIN T |-> -9]
         /\ phase = "init" /\ todo = {}
 
